@@ -195,8 +195,11 @@ class ThreadPool(object):
         if force:
             _consume_queue(self.task_queue)
             _consume_queue(self.result_queue)
-        for _ in range(self.pool_size):
+        # one sentinel for each thread that was started: a call with a single
+        # item is made directly and starts none
+        for _ in (self.pool or ()):
             self.task_queue.put(None)
+        self.pool = None
 
     def _init_pool(self):
         if self.pool_size < 2:
